@@ -32,40 +32,30 @@ NODE_SHAPES = [(r, n, o) for r in (0, 1) for n in (0, 1) for o in (0, 1, 2)
                and not (o == 2 and r == 0)]     # a row in a room keeps a room (create_node_to_mutate)
 
 
-def tree_shapes(tier):
-    out = []
-    for root in NODE_SHAPES:
-        out.append((root, 0))
-        for child in NODE_SHAPES:
-            out.append((root, 0, child, 0))
-    if tier == 'thorough':
-        for root in NODE_SHAPES:
-            out.append((root, 1))
-            for child in NODE_SHAPES:
-                out.append((root, 1, child, 1))
-                for gc in NODE_SHAPES:
-                    out.append((root, 0, child, 0, gc, 0))
-    return out
+CHILD_CONFIGS = [(), (1,), (2,), (1, 1)]     # number of child mutations per sub_nodes entry
 
 
 def shapes(tier):
-    return [dict(spec=i, tree=t) for i in range(len(SPECS[tier])) for t in tree_shapes(tier)]
+    out = []
+    for i in range(len(SPECS[tier])):
+        for ns in NODE_SHAPES:
+            for ndel in ((0, 1) if tier == 'thorough' else (0,)):
+                for cc in CHILD_CONFIGS:
+                    out.append(dict(spec=i, node=ns, ndel=ndel, children=cc))
+        if tier == 'quick':
+            out.append(dict(spec=i, node=(1, 1, 2), ndel=1, children=(1,)))
+    return out
 
 
 class Built:
     pass
 
 
-def build_insert(w, tree, level, date, caller, obligations, nodes_out, root_entity=None):
+def build_insert(w, node_shape, ndel, children, date, caller, entity):
     ctx = w.ctx
-    has_room, has_node, old = tree[0]
-    ndel = tree[1]
-    tag = 'n%d' % level
+    has_room, has_node, old = node_shape
+    tag = 'n0'
     nid = w.atom(tag + '_id', None, 'uid', n=16)
-    if root_entity is None:
-        entity = w.atom(tag + '_entity', ENTS[:2] + [S(lit='sys.Authorisation'), S(lit='sys.UserAuth'), S(lit='sys.EntityRight')], 'str')
-    else:
-        entity = root_entity
     room = w.atom(tag + '_room', ROOMS, 'uid', n=16) if has_room else None
     node = None
     size = None
@@ -89,25 +79,34 @@ def build_insert(w, tree, level, date, caller, obligations, nodes_out, root_enti
                            dest=w.atom('%s_del%d_dest' % (tag, i), None, 'uid', n=16), cdate=w.i64('%s_del%d_cdate' % (tag, i)),
                            author=w.atom('%s_del%d_author' % (tag, i), KEYS, 'bytes', n=33)))
     subs = MapV()
-    rest = tree[2:]
-    if rest:
-        child = build_insert(w, rest, level + 1, date, caller, obligations, nodes_out)
-        subs.entries.append([S(lit='child'), Cell(VecV([Cell(child)]))])
+    kids = []
+    for ei, cnt in enumerate(children):
+        lst = []
+        for ci in range(cnt):
+            cid = w.atom('c%d_%d_id' % (ei, ci), None, 'uid', n=16)
+            cntm = w.struct('NodeToMutate', id=cid, date=date, entity=w.atom('c%d_%d_entity' % (ei, ci), None, 'str'), room_id=none(),
+                            node=none(), node_fts_str=none(), old_node=none(), old_fts_str=none(), enable_full_text=True)
+            child = w.struct('InsertEntity', name=S(lit='c'), node_to_mutate=cntm, edge_deletions=VecV(), edge_deletions_log=VecV(),
+                             edge_insertions=VecV(), sub_nodes=MapV())
+            lst.append(Cell(child))
+            kids.append(child)
+        subs.entries.append([S(lit='field%d' % ei), Cell(VecV(lst))])
     ie = w.struct('InsertEntity', name=S(lit='x'), node_to_mutate=ntm, edge_deletions=VecV([Cell(d) for d in dels]),
                   edge_deletions_log=VecV(), edge_insertions=VecV(), sub_nodes=subs)
     info = Built()
-    info.level, info.entity, info.room, info.has_node, info.old_author, info.old_room, info.size, info.ndel = level, entity, room, has_node, old_author, old_room, size, ndel
+    info.level, info.entity, info.room, info.has_node, info.old_author, info.old_room, info.size, info.ndel = 0, entity, room, has_node, old_author, old_room, size, ndel
     info.old = old
     info.ie = ie
-    nodes_out.append(info)
-    return ie
+    info.kids = kids
+    info.children = children
+    return ie, info
 
 
 def row_obligation(info, rooms_ev, caller, date):
     """what the property requires for one row of the tree when the whole mutation is accepted"""
-    if not info.has_node:
-        return z3.BoolVal(True)       # nothing is written for this row
     sys_ent = zor(*[seq(info.entity, S(lit=x)) for x in SYS_ENTS])
+    if not info.has_node:
+        return znot(sys_ent)          # nothing is written for this row
     if info.room is None:
         return znot(sys_ent)          # rows outside any room are not governed by a room
     if info.old_author is None:
@@ -123,9 +122,26 @@ def row_obligation(info, rooms_ev, caller, date):
 
 
 def explore(ctx, shape, tier, report):
+    """Inductive step over the mutation tree: the call on one node is executed for real; its recursive
+    calls on the children are replaced by a stub that records the call and returns an arbitrary verdict
+    (induction hypothesis: an accepted child subtree satisfies the property).  Shown: Ok => this row's
+    obligation holds, and every child was validated, with the same state and caller, and accepted."""
     spec1, spec2 = SPECS[tier][shape['spec']]
-    tree = shape['tree']
     vem = ctx.method('RoomAuthorisations', 'validate_entity_mutation')
+    state = {}
+
+    def rec_stub(ctx, args):
+        st = state['cur']
+        child = deref(args[1])
+        same_self = deref(args[0]) is st['ra']
+        same_key = s_eq(deref(args[2]), st['caller'])
+        verdict_ok = ctx.choose(2, 'child verdict') == 0
+        st['visits'].append((child, same_self, same_key, verdict_ok))
+        if verdict_ok:
+            return ok(VecV())
+        return err(Opaque('child-error'))
+
+    ctx.call_hooks[vem.name] = rec_stub
 
     def path(ctx):
         w = World(ctx)
@@ -138,38 +154,51 @@ def explore(ctx, shape, tier, report):
         max_size = w.u64('max_node_size')
         ra = w.struct('RoomAuthorisations', signing_key=w.signing_key(caller), rooms=rooms, max_node_size=max_size)
         date = w.i64('op_date')
-        nodes = []
-        root_entity = w.atom('n0_entity', None, 'str')
-        for x in SYS_ENTS:
-            ctx.add(znot(seq(root_entity, S(lit=x))))
-        ie = build_insert(w, tree, 0, date, caller, None, nodes, root_entity=root_entity)
-        iec = Cell(ie)
+        entity = w.atom('n0_entity', None, 'str')
+        ctx.add(znot(seq(entity, S(lit='sys.Room'))))
+        ie, info = build_insert(w, shape['node'], shape['ndel'], shape['children'], date, caller, entity)
+        st = dict(ra=ra, caller=caller, visits=[])
+        state['cur'] = st
+        ctxinfo = dict(rooms=rooms_ev, caller=caller, date=date, nodes=[info], max_size=max_size, visits=st['visits'])
         try:
-            res = ctx.call(vem, [Ref(Cell(ra)), Ref(iec, True), Ref(Cell(caller))])
+            res = ctx.exec_fn(vem, [Ref(Cell(ra)), Ref(Cell(ie), True), Ref(Cell(caller))])
         except Panic as p:
-            report.panic(ctx, w, p, dict(rooms=rooms_ev, caller=caller, date=date, nodes=nodes, max_size=max_size))
+            report.panic(ctx, w, p, ctxinfo)
             return
         accepted = res.variant == 0
         report.path(accepted)
-        if accepted:
-            prop = zand(*[row_obligation(n, rooms_ev, caller, date) for n in nodes])
-            # size limit: an accepted tree contains no written row above the limit
-            size_ok = zand(*[z3.ULE(n.size.z(), max_size.z()) for n in nodes if n.has_node])
-            m = ctx.check_sat(znot(zand(prop, size_ok)))
-            if m is not None:
-                # which row fails?
-                culprit = None
-                for n in nodes:
-                    if z3.is_false(m.eval(zb(row_obligation(n, rooms_ev, caller, date)), model_completion=True)):
-                        culprit = n
-                        break
-                report.violation(ctx, m, 'accepted-without-right', dict(rooms=rooms_ev, caller=caller, date=date, nodes=nodes, max_size=max_size, culprit=culprit))
-            else:
-                report.witness('accepted')
-        else:
+        if report.want_sample(accepted):
+            ms = ctx.check_sat(True)
+            if ms is not None:
+                sc = scenario(ctx, ms, 'sample', ctxinfo)
+                sc['expect'] = dict(result='Ok' if accepted else 'Err')
+                report.sample(sc)
+        if not accepted:
             report.witness('rejected')
+            return
+        # children: each validated exactly once, same state and caller, and accepted
+        visited = [v[0] for v in st['visits']]
+        kids_ok = all(any(v[0] is k for v in st['visits']) for k in info.kids) and len(visited) == len(info.kids) \
+            and all(v[1] and v[3] for v in st['visits'])
+        keys_ok = zand(*[zb(v[2]) for v in st['visits']])
+        prop = zand(row_obligation(info, rooms_ev, caller, date), keys_ok,
+                    z3.ULE(info.size.z(), max_size.z()) if info.has_node else True)
+        if not kids_ok:
+            m = ctx.check_sat(True)
+            ctxinfo['children_problem'] = True
+            report.violation(ctx, m, 'accepted-without-right', ctxinfo)
+            return
+        m = ctx.check_sat(znot(prop))
+        if m is not None:
+            ctxinfo['culprit'] = info
+            report.violation(ctx, m, 'accepted-without-right', ctxinfo)
+        else:
+            report.witness('accepted')
 
-    ctx.explore(path)
+    try:
+        ctx.explore(path)
+    finally:
+        ctx.call_hooks.pop(vem.name, None)
 
 
 REQUIRED_WITNESSES = ['accepted', 'rejected']
@@ -210,47 +239,63 @@ def _failed_roles(m, n, rooms_ev, caller, date):
 def scenario(ctx, m, kind, info):
     c = Concretizer(m)
     rooms_ev, caller, date, nodes = info['rooms'], info['caller'], info['date'], info['nodes']
-    by_level = {n.level: n for n in nodes}
-    big = []
-
-    def enc(level):
-        n = by_level.get(level)
-        if n is None:
-            return None
-        ie = n.ie
-        d = dict(id=c.atom(deref(World(ctx).field(World(ctx).field(ie, 'InsertEntity', 'node_to_mutate').v, 'NodeToMutate', 'id').v), 'uid'),
-                 date=c.int(date), entity=c.atom(n.entity, 'ent'), room=None if n.room is None else c.atom(n.room, 'room'))
-        if n.has_node:
-            over = bool(z3.is_true(m.eval(z3.UGT(n.size.z(), info['max_size'].z()), model_completion=True)))
-            d['node'] = dict(room=d['room'], cdate=0, mdate=c.int(date), short='9.9', author=c.atom(caller, 'key'),
-                             json=('{"pad":"%s"}' % ('x' * 600)) if over else '{}')
-            if over:
-                big.append(level)
-        else:
-            d['node'] = None
-        if n.old:
-            d['old'] = dict(room=None if n.old_room is None else c.atom(n.old_room, 'room'), cdate=0, mdate=0, short='9.9',
-                            author=c.atom(n.old_author, 'key'))
-        else:
-            d['old'] = None
-        d['dels'] = [dict(src=d['id'], dest='dest%d' % i, src_entity='9.9', label='l', cdate=0, author=c.atom(caller, 'key')) for i in range(n.ndel)]
-        child = enc(level + 1)
-        d['subs'] = {'child': [child]} if child is not None else {}
-        return d
-
-    tree = enc(0)
+    n = nodes[0]
+    w = World(ctx)
+    nid = deref(w.field(w.field(n.ie, 'InsertEntity', 'node_to_mutate').v, 'NodeToMutate', 'id').v)
+    d = dict(id=c.atom(nid, 'uid'), date=c.int(date), entity=c.atom(n.entity, 'ent'), room=None if n.room is None else c.atom(n.room, 'room'))
+    over = False
+    if n.has_node:
+        over = bool(z3.is_true(m.eval(z3.UGT(n.size.z(), info['max_size'].z()), model_completion=True)))
+        d['node'] = dict(room=d['room'], cdate=0, mdate=c.int(date), short='9.9', author=c.atom(caller, 'key'),
+                         json=('{"pad":"%s"}' % ('x' * 600)) if over else '{}')
+    else:
+        d['node'] = None
+    if n.old:
+        d['old'] = dict(room=None if n.old_room is None else c.atom(n.old_room, 'room'), cdate=0, mdate=0, short='9.9',
+                        author=c.atom(n.old_author, 'key'))
+    else:
+        d['old'] = None
+    d['dels'] = [dict(src=d['id'], dest='dest%d' % i, src_entity='9.9', label='l', cdate=0, author=c.atom(caller, 'key')) for i in range(n.ndel)]
+    bad_children = bool(info.get('children_problem'))
+    verdicts = {}
+    for v in info.get('visits', []):
+        for ki, kid in enumerate(n.kids):
+            if kid is v[0]:
+                verdicts[ki] = v[3]
+    subs = {}
+    k = 0
+    for ei, cnt in enumerate(n.children):
+        lst = []
+        for ci in range(cnt):
+            k += 1
+            if bad_children or (kind == 'sample' and verdicts.get(k - 1) is False):
+                # a child that must be refused: a new row in a room nobody registered
+                lst.append(dict(id='child%d' % k, date=c.int(date), entity='E', room='room-not-registered', old=None, dels=[], subs={},
+                                node=dict(room='room-not-registered', cdate=0, mdate=c.int(date), short='9.9', author=c.atom(caller, 'key'), json='{}')))
+            else:
+                lst.append(dict(id='child%d' % k, date=c.int(date), entity='E', room=None, old=None, dels=[], subs={},
+                                node=dict(room=None, cdate=0, mdate=c.int(date), short='9.9', author=c.atom(caller, 'key'), json='{}')))
+        subs['field%d' % ei] = lst
+    d['subs'] = subs
     sc = dict(kind='entity_mutation', property='C01', rooms=[c.room(ev) for ev in rooms_ev], caller=c.atom(caller, 'key'),
-              max_node_size=400 if big else 1 << 40, tree=tree)
+              max_node_size=400 if over else 1 << 40, tree=d)
     if kind == 'panic':
         sc['expect'] = dict(result='panic')
         return sc
-    culprit = info.get('culprit')
-    roles = _failed_roles(m, culprit, rooms_ev, caller, date) if culprit is not None else []
-    under_ref = culprit is not None and any((not by_level[l].has_node) for l in range(culprit.level))
-    if not roles and big:
-        roles = ['oversized-row']
+    if kind == 'sample':
+        return sc
     sc['expect'] = dict(result='Ok')
-    sc['what'] = 'validate_entity_mutation accepts a tree whose row at level %s lacks: %s%s' % (
-        culprit.level if culprit else '?', ','.join(roles), ' (below an unchanged reference)' if under_ref else '')
-    sc['signature'] = 'accepted-without-right:%s%s' % ('+'.join(roles) or 'unknown', ':under-reference' if under_ref else '')
+    if bad_children:
+        ref = not n.has_node
+        sc['what'] = 'validate_entity_mutation accepts a tree without validating (or despite a refused) nested mutation%s' % (
+            ' below an unchanged reference' if ref else '')
+        sc['signature'] = 'accepted-without-right:nested-mutation-not-validated' + (':under-reference' if ref else '')
+        return sc
+    roles = _failed_roles(m, n, rooms_ev, caller, date)
+    if not roles and over:
+        roles = ['oversized-row']
+    if not roles and not z3.is_true(m.eval(zand(*[zb(v[2]) for v in info['visits']]), model_completion=True)):
+        roles = ['child-validated-for-another-key']
+    sc['what'] = 'validate_entity_mutation accepts a row lacking: %s' % ','.join(roles)
+    sc['signature'] = 'accepted-without-right:%s' % ('+'.join(roles) or 'unknown')
     return sc
